@@ -401,7 +401,40 @@ def r19_6(chk):
     chk.floor("R19.6", 1, "one temp-path constructor")
 
 
+def r19_7(chk):
+    chk.rule("R19.7", "the writers commit by rename, never by the in-zip commit: atomic_write chooses `_close_rename_zip` when `in_zip` is given, and that function opens the DESTINATION archive in append mode (ZipFile(self._in_zip, 'a')) -- a second write adds a duplicate member instead of leaving exactly the new content, and a kill during the append damages the previous archive; so no atomic_write(...) call site of the library passes in_zip (zip targets go through the temp file + rename path, where open_ builds the whole archive in the temp dir)")
+    io = chk.repo.module(IO)
+    zc = io.func("atomic_write._close_rename_zip")
+    in_place = [c for c in walk_no_nested(zc) if isinstance(c, ast.Call) and (call_name(c) or "").split(".")[-1] == "ZipFile" and c.args and "_in_zip" in norm(c.args[0]) and (len(c.args) < 2 or not (isinstance(c.args[1], ast.Constant) and c.args[1].value == "r"))]
+    init = io.func("atomic_write.__init__")
+    sel = [st for st in walk_no_nested(init) if isinstance(st, ast.Assign) and norm(st.targets[0]) == "self._close_func"]
+    if not sel:
+        raise AnalysisError("atomic_write.__init__: the commit function selection was not found")
+    selects_on_in_zip = isinstance(sel[0].value, ast.IfExp) and "in_zip" in norm(sel[0].value.test)
+    sites = 0
+    for mod in chk.repo.all_modules():
+        if "atomic_write" not in mod.source or mod.rel.endswith("util/io.py"):
+            continue
+        for q, fn in mod.all_functions():
+            for c in walk_no_nested(fn):
+                if not (isinstance(c, ast.Call) and call_name(c) == "atomic_write"):
+                    continue
+                sites += 1
+                kw = next((k_.value for k_ in c.keywords if k_.arg == "in_zip"), c.args[2] if len(c.args) > 2 else None)
+                star = any(k_.arg is None for k_ in c.keywords)
+                k = key(mod, q, "commit path selected by the atomic_write call")
+                falsy = kw is None or (isinstance(kw, ast.Constant) and not kw.value)
+                if not (in_place and selects_on_in_zip):
+                    chk.ok("R19.7", k, mod.loc(c), "the in-zip commit no longer writes into the destination in place", nontrivial=False)
+                elif star:
+                    chk.unresolved("R19.7", k, mod.loc(c), "**kwargs forwarded to atomic_write")
+                else:
+                    chk.decide(falsy, "R19.7", k, mod.loc(c), "no in_zip: temp file + rename", f"`{norm(c)}` passes in_zip={norm(kw) if kw is not None else ''}: the write is committed by appending to the existing archive in place (atomic_write._close_rename_zip), not by renaming a complete new file over it")
+    chk.floor("R19.7", 8, "9 atomic_write sites outside util/io.py on the pinned tree")
+
+
 def run(chk):
+    r19_7(chk)
     r19_6(chk)
     r19_5b(chk)
     r19_1(chk)
